@@ -604,6 +604,24 @@ void run(Src &src, Case &c)
             return;
         }
         c.cls(std::string("variant-without-externals:") + (analyserV->model() != nullptr ? AnalyserModel::typeAsString(analyserV->model()->type()) : "null"));
+        // ... and each class of U on its own: with two removed definitions the variant may be invalid because of one of them
+        // while the analyser reads an NLA equation as the definition of the other.
+        if (U.size() > 1) {
+            for (int u : U) {
+                GtModel one = gt;
+                if (!c20Underconstrain(one, {u})) {
+                    continue;
+                }
+                Built bOne = buildApi(one.spec);
+                auto analyserOne = Analyser::create();
+                analyserOne->analyseModel(bOne.model);
+                if (analyserOne->model() != nullptr && analyserOne->model()->isValid()) {
+                    c.count("excluded:variant-without-definitions-still-valid");
+                    c.hash = hashStr(c.text + "|variant-valid");
+                    return;
+                }
+            }
+        }
     }
     auto analyser = Analyser::create();
     std::ostringstream desc;
@@ -1325,9 +1343,37 @@ void run(Src &src, Case &c)
                 c.count("declared-dependencies-checked");
                 if (!closeEnough(got, want, kTol)) {
                     std::string drole = dExt ? "external" : gtRoleName(dc.role);
+                    // Open corner of the initialisation order (notes/C20.md, fix-3 / fix-9): the external variable for which the
+                    // callback is invoked initialises something itself (directly or through a chain) and declares a dependency
+                    // on a state that is in turn initialised from another external variable.
+                    std::string cornerNote;
+                    if (k.stage == 0 && si >= 0) {
+                        auto endsInMarked = [&](int cls) {
+                            for (int hop = 0, kk = cls; hop < 8; ++hop) {
+                                int by = gt.classes[static_cast<size_t>(kk)].initialisedBy;
+                                if (by < 0) {
+                                    return -1;
+                                }
+                                if (marked[static_cast<size_t>(by)]) {
+                                    return by;
+                                }
+                                kk = by;
+                            }
+                            return -1;
+                        };
+                        const int self = map1.vars[k.index].first;
+                        bool selfInitialises = false;
+                        for (size_t q = 0; q < n; ++q) {
+                            selfInitialises = selfInitialises || (!marked[q] && endsInMarked(static_cast<int>(q)) == self);
+                        }
+                        (void)selfInitialises; // the callback may also come early as a declared dependency of such an external
+                        if (endsInMarked(d.first) >= 0 && endsInMarked(d.first) != self) {
+                            cornerNote = "|initialising-external-depends-on-externally-initialised-state";
+                        }
+                    }
                     const auto &second = declaredOnSecondObject[k.index];
                     const std::string objectNote = std::find(second.begin(), second.end(), d) != second.end() ? "|declared-on-second-object-of-class" : "";
-                    if (!bad("C20.order|" + L + "|" + stageName(k.stage) + "|dependency:" + drole + memberNote(d.first) + objectNote,
+                    if (!bad("C20.order|" + L + "|" + stageName(k.stage) + "|dependency:" + drole + memberNote(d.first) + objectNote + cornerNote,
                              where + ": declared dependency " + instLabel(gt, d.first, d.second) + " (" + drole + ") holds " + std::to_string(got) + " but its value is " + std::to_string(want) + " - the callback is invoked before the dependency has been computed")) return false;
                 }
             }
